@@ -735,10 +735,11 @@ theorem leadingCondShape_short (c : Shape) (n : Nat) (h : c.length ≤ n) (hn : 
   simp only [hn, if_false, pySliceStop, hneg, if_true, Int.natAbs_neg, Int.natAbs_natCast]
   simp [Nat.sub_eq_zero_of_le h]
 
-theorem keySize_eq_iff (ks : Shape) : keySize ks = sprod ks ↔ sprod ks ≠ 0 := by
-  unfold keySize; omega
+theorem keySize_eq (ks : Shape) : keySize ks = sprod ks := rfl
 
-theorem keySize_pos (ks : Shape) : 0 < keySize ks := by unfold keySize; omega
+/-- the previous revision's rule agrees with the shape's size exactly on non-empty shapes -/
+theorem keySizeMax1_eq_iff (ks : Shape) : keySizeMax1 ks = sprod ks ↔ sprod ks ≠ 0 := by
+  unfold keySizeMax1; omega
 
 theorem keyShape_cond (ss cb cs : Shape) : keyShape ss (some cs) (some (cb ++ cs)) = ss ++ cb := by
   simp [keyShape, leadingCondShape_append]
@@ -747,14 +748,19 @@ theorem keyShape_uncond (ss : Shape) (c : Option Shape) : keyShape ss none c = s
   simp [keyShape]
 
 theorem sampleKeys_eq {Key : Type} (split : Key → Nat → Nat → Key) (key : Key) (ks : Shape) :
-    sampleKeys split key ks =
+    sampleKeys split key ks = .ok ⟨ks ++ [2], fun i => split key (sprod ks) (flatIndex ks i)⟩ := by
+  simp only [sampleKeys, sampleKeysWith, keySize_eq, if_true]
+
+/-- the previous revision (`max(1, prod)`): the reshape fails exactly on zero-sized key shapes -/
+theorem sampleKeysWith_max1 {Key : Type} (split : Key → Nat → Nat → Key) (key : Key) (ks : Shape) :
+    sampleKeysWith keySizeMax1 split key ks =
       if sprod ks ≠ 0 then .ok ⟨ks ++ [2], fun i => split key (sprod ks) (flatIndex ks i)⟩
       else .error .typeError := by
-  unfold sampleKeys
+  unfold sampleKeysWith
   by_cases h : sprod ks ≠ 0
-  · have := (keySize_eq_iff ks).2 h
+  · have := (keySizeMax1_eq_iff ks).2 h
     rw [if_pos this, if_pos h, this]
-  · have : ¬ keySize ks = sprod ks := fun e => h ((keySize_eq_iff ks).1 e)
+  · have : ¬ keySizeMax1 ks = sprod ks := fun e => h ((keySizeMax1_eq_iff ks).1 e)
     simp [this, h]
 
 /-! ### `jnp.vectorize` on arrays, closed form -/
@@ -834,24 +840,14 @@ theorem logProbUncond_eq (shape xb : Shape) (lp : X → C → L) (post : L → L
 theorem sampleWithCond_eq (cs ss cb : Shape) (m : K → C → R) (split : K → Nat → Nat → K) (key : K) (c : Arr C)
     (hc : c.shape = cb ++ cs) :
     sampleWithCond cs m split key ss (some c) =
-      if sprod (ss ++ cb) ≠ 0 then
-        .ok ⟨ss ++ cb, fun i => m (split key (sprod (ss ++ cb)) (flatIndex (ss ++ cb) (bIndex (ss ++ cb) i)))
-                                   (c.slice (bIndex cb i))⟩
-      else .error .typeError := by
-  simp only [sampleWithCond, hc, keyShape_cond, sampleKeys_eq]
-  by_cases h : sprod (ss ++ cb) ≠ 0
-  · simp only [if_pos h, vectorize2_eq, hc, leadingShape_append, bcast2_prefix]
-  · simp only [if_neg h]
+      .ok ⟨ss ++ cb, fun i => m (split key (sprod (ss ++ cb)) (flatIndex (ss ++ cb) (bIndex (ss ++ cb) i)))
+                                 (c.slice (bIndex cb i))⟩ := by
+  simp only [sampleWithCond, hc, keyShape_cond, sampleKeys_eq, vectorize2_eq, leadingShape_append, bcast2_prefix]
 
 theorem sampleWithoutCond_eq (ss : Shape) (m : K → C → R) (split : K → Nat → Nat → K) (key : K) (c : C) :
     sampleWithoutCond m split key ss c =
-      if sprod ss ≠ 0 then
-        .ok ⟨ss, fun i => m (split key (sprod ss) (flatIndex ss (bIndex ss i))) c⟩
-      else .error .typeError := by
-  simp only [sampleWithoutCond, keyShape_uncond, sampleKeys_eq]
-  by_cases h : sprod ss ≠ 0
-  · simp only [if_pos h, vectorize1_eq, leadingShape_append]
-  · simp only [if_neg h]
+      .ok ⟨ss, fun i => m (split key (sprod ss) (flatIndex ss (bIndex ss i))) c⟩ := by
+  simp only [sampleWithoutCond, keyShape_uncond, sampleKeys_eq, vectorize1_eq, leadingShape_append]
 
 /-! ### acceptance ⇔ trailing dimensions match (and the batch shapes broadcast) -/
 
@@ -887,31 +883,23 @@ theorem logProbCond_error (shape cs : Shape) (lp : X → C → L) (post : L → 
     rfl
 
 theorem sampleWithCond_ok_iff (cs ss : Shape) (m : K → C → R) (split : K → Nat → Nat → K) (key : K) (c : Arr C) :
-    (∃ out, sampleWithCond cs m split key ss (some c) = .ok out) ↔
-      ∃ cb, c.shape = cb ++ cs ∧ sprod (ss ++ cb) ≠ 0 := by
+    (∃ out, sampleWithCond cs m split key ss (some c) = .ok out) ↔ ∃ cb, c.shape = cb ++ cs := by
   constructor
   · rintro ⟨out, h⟩
-    simp only [sampleWithCond, sampleKeys_eq] at h
-    split at h
-    · cases h
-    · rename_i keys hk
-      split at hk
-      · cases hk
-        simp only [vectorize2_eq] at h
-        cases h2 : leadingShape c.shape cs with
-        | none =>
-          simp only [h2] at h
-          split at h <;> simp_all
-        | some cb =>
-          have hc := leadingShape_eq_some.1 h2
-          refine ⟨cb, hc, ?_⟩
-          rename_i hne
-          rw [hc, keyShape_cond] at hne
-          exact hne
-      · cases hk
-  · rintro ⟨cb, hc, hne⟩
-    rw [sampleWithCond_eq cs ss cb m split key c hc, if_pos hne]
+    simp only [sampleWithCond, sampleKeys_eq, vectorize2_eq] at h
+    cases h2 : leadingShape c.shape cs with
+    | none =>
+      simp only [h2] at h
+      split at h <;> simp_all
+    | some cb => exact ⟨cb, leadingShape_eq_some.1 h2⟩
+  · rintro ⟨cb, hc⟩
+    rw [sampleWithCond_eq cs ss cb m split key c hc]
     exact ⟨_, rfl⟩
+
+theorem sampleWithCond_error (cs ss : Shape) (m : K → C → R) (split : K → Nat → Nat → K) (key : K) (c : Arr C)
+    (e : PyErr) (h : sampleWithCond cs m split key ss (some c) = .error e) : e = .valueError := by
+  simp only [sampleWithCond, sampleKeys_eq] at h
+  exact vectorize2_error h
 
 /-! ### the shape-only `outShape` (what the driver prints) is the shape of the value-level model -/
 
@@ -938,45 +926,37 @@ theorem outShape_sample_cond_link (shape cs ss xs : Shape) (smp : K → C → X)
     (c : Arr C) :
     outShape .sample shape (some cs) ss xs (some c.shape)
       = (sampleCond cs smp split key ss (some c)).map (fun b => [b.loop ++ shape]) := by
-  simp only [outShape, methodShapes, vectorizeLoopSig_ufunc, sampleCond, sampleWithCond, sampleKeys, vectorize2_eq,
+  simp only [outShape, methodShapes, vectorizeLoopSig_ufunc, sampleCond, sampleWithCond, sampleKeys, sampleKeysWith, vectorize2_eq,
     vectorizeLoop_two, (by decide : ¬ Method.sample = Method.logProb), if_false]
-  by_cases hk : keySize (keyShape ss (some cs) (some c.shape)) = sprod (keyShape ss (some cs) (some c.shape))
-  · simp only [if_pos hk, leadingShape_append]
-    cases leadingShape c.shape cs <;> simp only [] <;> try rfl
-    cases bcast2 _ _ <;> simp [Except.map]
-  · simp only [if_neg hk]; rfl
+  simp only [keySize_eq, if_true, leadingShape_append]
+  cases leadingShape c.shape cs <;> simp only [] <;> try rfl
+  cases bcast2 _ _ <;> simp [Except.map]
 
 theorem outShape_sampleLp_cond_link (shape cs ss xs : Shape) (slp : K → C → X × L) (split : K → Nat → Nat → K)
     (key : K) (c : Arr C) :
     outShape .sampleLp shape (some cs) ss xs (some c.shape)
       = (sampleLpCond cs slp split key ss (some c)).map (fun b => [b.loop ++ shape, b.loop]) := by
-  simp only [outShape, methodShapes, vectorizeLoopSig_ufunc, sampleLpCond, sampleWithCond, sampleKeys, vectorize2_eq,
+  simp only [outShape, methodShapes, vectorizeLoopSig_ufunc, sampleLpCond, sampleWithCond, sampleKeys, sampleKeysWith, vectorize2_eq,
     vectorizeLoop_two, (by decide : ¬ Method.sampleLp = Method.logProb), if_false]
-  by_cases hk : keySize (keyShape ss (some cs) (some c.shape)) = sprod (keyShape ss (some cs) (some c.shape))
-  · simp only [if_pos hk, leadingShape_append]
-    cases leadingShape c.shape cs <;> simp only [] <;> try rfl
-    cases bcast2 _ _ <;> simp [Except.map]
-  · simp only [if_neg hk]; rfl
+  simp only [keySize_eq, if_true, leadingShape_append]
+  cases leadingShape c.shape cs <;> simp only [] <;> try rfl
+  cases bcast2 _ _ <;> simp [Except.map]
 
 theorem outShape_sample_uncond_link (shape ss xs : Shape) (smp : K → C → X) (split : K → Nat → Nat → K) (key : K)
     (c : C) (cshape : Option Shape) :
     outShape .sample shape none ss xs cshape
       = (sampleUncond smp split key ss c).map (fun b => [b.loop ++ shape]) := by
-  simp only [outShape, methodShapes, vectorizeLoopSig_ufunc, sampleUncond, sampleWithoutCond, sampleKeys, vectorize1_eq,
+  simp only [outShape, methodShapes, vectorizeLoopSig_ufunc, sampleUncond, sampleWithoutCond, sampleKeys, sampleKeysWith, vectorize1_eq,
     vectorizeLoop_one, (by decide : ¬ Method.sample = Method.logProb), if_false, keyShape_uncond]
-  by_cases hk : keySize ss = sprod ss
-  · simp [if_pos hk, leadingShape_append, Except.map]
-  · simp only [if_neg hk]; rfl
+  simp [keySize_eq, leadingShape_append, Except.map]
 
 theorem outShape_sampleLp_uncond_link (shape ss xs : Shape) (slp : K → C → X × L) (split : K → Nat → Nat → K)
     (key : K) (c : C) (cshape : Option Shape) :
     outShape .sampleLp shape none ss xs cshape
       = (sampleLpUncond slp split key ss c).map (fun b => [b.loop ++ shape, b.loop]) := by
-  simp only [outShape, methodShapes, vectorizeLoopSig_ufunc, sampleLpUncond, sampleWithoutCond, sampleKeys,
+  simp only [outShape, methodShapes, vectorizeLoopSig_ufunc, sampleLpUncond, sampleWithoutCond, sampleKeys, sampleKeysWith,
     vectorize1_eq, vectorizeLoop_one, (by decide : ¬ Method.sampleLp = Method.logProb), if_false, keyShape_uncond]
-  by_cases hk : keySize ss = sprod ss
-  · simp [if_pos hk, leadingShape_append, Except.map]
-  · simp only [if_neg hk]; rfl
+  simp [keySize_eq, leadingShape_append, Except.map]
 
 /-! ### closed forms of `outShape` -/
 theorem outShape_logProb_cond (shape cs ss xb cb : Shape) :
@@ -991,41 +971,33 @@ theorem outShape_logProb_uncond (shape ss xb : Shape) (c : Option Shape) :
     outShape .logProb shape none ss (xb ++ shape) c = .ok [xb] := by
   simp [outShape, methodShapes, vectorizeLoopSig_ufunc, vectorizeLoop_one, leadingShape_append, Except.map]
 
-theorem outShape_sample_cond (shape cs ss xs cb : Shape) (h : sprod (ss ++ cb) ≠ 0) :
+theorem outShape_sample_cond (shape cs ss xs cb : Shape) :
     outShape .sample shape (some cs) ss xs (some (cb ++ cs)) = .ok [ss ++ cb ++ shape] := by
-  have hk := (keySize_eq_iff _).2 h
-  simp only [outShape, methodShapes, vectorizeLoopSig_ufunc, keyShape_cond, if_pos hk, vectorizeLoop_two,
+  have hk := keySize_eq
+  simp only [outShape, methodShapes, vectorizeLoopSig_ufunc, keyShape_cond, if_pos (hk _), vectorizeLoop_two,
     leadingShape_append, bcast2_prefix, (by decide : ¬ Method.sample = Method.logProb), if_false]
   rfl
 
-theorem outShape_sampleLp_cond (shape cs ss xs cb : Shape) (h : sprod (ss ++ cb) ≠ 0) :
+theorem outShape_sampleLp_cond (shape cs ss xs cb : Shape) :
     outShape .sampleLp shape (some cs) ss xs (some (cb ++ cs)) = .ok [ss ++ cb ++ shape, ss ++ cb] := by
-  have hk := (keySize_eq_iff _).2 h
-  simp only [outShape, methodShapes, vectorizeLoopSig_ufunc, keyShape_cond, if_pos hk, vectorizeLoop_two,
+  have hk := keySize_eq
+  simp only [outShape, methodShapes, vectorizeLoopSig_ufunc, keyShape_cond, if_pos (hk _), vectorizeLoop_two,
     leadingShape_append, bcast2_prefix, (by decide : ¬ Method.sampleLp = Method.logProb), if_false]
   simp [Except.map]
 
-theorem outShape_sample_uncond (shape ss xs : Shape) (c : Option Shape) (h : sprod ss ≠ 0) :
+theorem outShape_sample_uncond (shape ss xs : Shape) (c : Option Shape) :
     outShape .sample shape none ss xs c = .ok [ss ++ shape] := by
-  have hk := (keySize_eq_iff _).2 h
-  simp only [outShape, methodShapes, vectorizeLoopSig_ufunc, keyShape_uncond, if_pos hk, vectorizeLoop_one,
+  have hk := keySize_eq
+  simp only [outShape, methodShapes, vectorizeLoopSig_ufunc, keyShape_uncond, if_pos (hk _), vectorizeLoop_one,
     leadingShape_append, (by decide : ¬ Method.sample = Method.logProb), if_false]
   rfl
 
-theorem outShape_sampleLp_uncond (shape ss xs : Shape) (c : Option Shape) (h : sprod ss ≠ 0) :
+theorem outShape_sampleLp_uncond (shape ss xs : Shape) (c : Option Shape) :
     outShape .sampleLp shape none ss xs c = .ok [ss ++ shape, ss] := by
-  have hk := (keySize_eq_iff _).2 h
-  simp only [outShape, methodShapes, vectorizeLoopSig_ufunc, keyShape_uncond, if_pos hk, vectorizeLoop_one,
+  have hk := keySize_eq
+  simp only [outShape, methodShapes, vectorizeLoopSig_ufunc, keyShape_uncond, if_pos (hk _), vectorizeLoop_one,
     leadingShape_append, (by decide : ¬ Method.sampleLp = Method.logProb), if_false]
   simp [Except.map]
-
-/-- a zero-sized `sample_shape` / condition batch: `max(1, prod(key_shape))` makes one key and the reshape
-to a zero-sized array raises TypeError -/
-theorem outShape_sample_zero_size (m : Method) (hm : m ≠ .logProb) (shape cs ss xs cb : Shape)
-    (h : sprod (ss ++ cb) = 0) :
-    outShape m shape (some cs) ss xs (some (cb ++ cs)) = .error .typeError := by
-  have : ¬ keySize (ss ++ cb) = sprod (ss ++ cb) := fun e => (keySize_eq_iff _).1 e h
-  cases m <;> simp_all [outShape, keyShape_cond]
 
 /-! ### the driver's `pair` is the model's pairing -/
 theorem pairFlat_two {la lb loop : Shape} {k : Nat} (h : bcast2 la lb = some loop) (hk : k < sprod loop) :
